@@ -64,4 +64,10 @@ TEXT["C09"] = {
             "model compared with the real verifier on the policy grid (times at the boundaries, methods, banned headers in "
             "random letter case, Cache-Control subsets, Expires, status codes, validity-URL variants).",
     "note": SXG_NOTE}
+TEXT["C17"] = {
+    "text": "Theorems: validated chains write and read back byte-for-byte (DER, OCSP, SCT), output is the canonical CBOR "
+            "form [magic, {cert, ocsp?, sct?}...], invalid chains are refused in both directions, SCT list serialization "
+            "is exactly the RFC 6962 vector or an error at the 65535 limits; model compared with the library on generated "
+            "chains (real certificates incl. one above 65535 bytes), presence patterns, mutated and hand-built inputs.",
+    "note": COMMON_NOTE + "x509.ParseCertificate is an oracle (per-input table from the standard library); premise raw(parse d) = d."}
 NOT_YET = {}
